@@ -64,14 +64,45 @@ class FakeSocket:
         self.closed = False
         self.nread = 0
         self.quiet_reads = 0
+        self.seg_until = 0.0
+        self.inflight = 0
         self.env["port"] = self
 
     def deliver(self, data):
+        """Device -> host bytes.  A line may travel in two TCP segments that arrive `seggap`
+        seconds apart (draws 'seg' = split position as a fraction, 0 = no split); later lines
+        queue behind a delayed remainder, so the byte stream stays in order."""
+        if self.eof or self.reset or self.closed:
+            return False
+        k = self.k
+        frac = self.env["draws"].next("seg", 0)
+        t = max(k.now, self.seg_until)
+        if frac and len(data) > 1:
+            cut = max(1, min(len(data) - 1, int(frac * len(data))))
+            gap = self.env["draws"].next("seggap", 0.0)
+            self._arrive_at(t, data[:cut])
+            self._arrive_at(t + gap, data[cut:])
+            self.seg_until = t + gap
+            k.probe("sock.line_in_two_segments")
+            if gap > 0.25:
+                k.probe("sock.segments_gap_over_read_timeout")
+        else:
+            self._arrive_at(t, data)
+        return True
+
+    def _arrive_at(self, t, data):
+        if t <= self.k.now:
+            self._arrive(data, False)
+        else:
+            self.inflight += 1
+            self.k.at(t, self._arrive, data, True)
+
+    def _arrive(self, data, counted):
+        if counted:
+            self.inflight -= 1
         if not (self.eof or self.reset or self.closed):
             self.rxbuf += data
             self.quiet_reads = 0
-            return True
-        return False
 
     # faults
     def peer_close(self):
